@@ -347,6 +347,8 @@ type C15SubCase struct {
 	Day    int    `json:"day"` // day of 2021-12 or so
 	Month  int    `json:"month"`
 	Year   int    `json:"year"`
+	// Unknown: the offset is unknown (-00:00) instead of UTC
+	Unknown bool `json:"unknown,omitempty"`
 }
 
 func runC15Sub(c C15SubCase) string {
@@ -374,7 +376,7 @@ func runC15Sub(c C15SubCase) string {
 	return drive.Guard2(func() string {
 		var ts *ion.Timestamp
 		if !c.Binary {
-			s := fmt.Sprintf("%04d-%02d-%02dT%02d:%02d:%02d.%sZ", c.Year, c.Month, c.Day, c.Hour, c.Min, c.Sec, c.Digits)
+			s := fmt.Sprintf("%04d-%02d-%02dT%02d:%02d:%02d.%s%s", c.Year, c.Month, c.Day, c.Hour, c.Min, c.Sec, c.Digits, map[bool]string{false: "Z", true: "-00:00"}[c.Unknown])
 			t1, err := ion.ParseTimestamp(s)
 			if err != nil {
 				return fmt.Sprintf("ParseTimestamp(%q): %v", s, err)
@@ -392,7 +394,7 @@ func runC15Sub(c C15SubCase) string {
 				return fmt.Sprintf("reader and ParseTimestamp disagree on %q: %v vs %v", s, t2, t1)
 			}
 		} else {
-			body := binTS(0, false, uint64(c.Year), uint64(c.Month), uint64(c.Day), uint64(c.Hour), uint64(c.Min), uint64(c.Sec))
+			body := binTS(0, c.Unknown, uint64(c.Year), uint64(c.Month), uint64(c.Day), uint64(c.Hour), uint64(c.Min), uint64(c.Sec))
 			body = refbin.VarInt(body, -nd, false, 0)
 			mag := frac.Bytes()
 			if len(mag) == 0 {
@@ -425,6 +427,9 @@ func runC15Sub(c C15SubCase) string {
 		}
 		if diff.Cmp(limit) > 0 {
 			return fmt.Sprintf("fraction .%s (binary=%v) at %04d-%02d-%02dT%02d:%02d:%02dZ read as %v: off by more than half a nanosecond", c.Digits, c.Binary, c.Year, c.Month, c.Day, c.Hour, c.Min, c.Sec, dt.UTC())
+		}
+		if want := map[bool]ion.TimezoneKind{false: ion.TimezoneUTC, true: ion.TimezoneUnspecified}[c.Unknown]; ts.GetTimezoneKind() != want {
+			return fmt.Sprintf("fraction .%s (binary=%v, unknown offset=%v): offset kind %v, want %v", c.Digits, c.Binary, c.Unknown, ts.GetTimezoneKind(), want)
 		}
 		if ts.GetPrecision() != ion.TimestampPrecisionNanosecond || ts.GetNumberOfFractionalSeconds() != 9 {
 			return fmt.Sprintf("fraction .%s: precision %v with %d digits, want nanosecond with 9", c.Digits, ts.GetPrecision(), ts.GetNumberOfFractionalSeconds())
@@ -496,6 +501,7 @@ func genC15Sub(t *rapid.T) C15SubCase {
 	if c.Year == 9999 && c.Hour == 23 && c.Min == 59 && c.Sec == 59 {
 		c.Sec = 58 // rounding up would leave the year range
 	}
+	c.Unknown = gen.Chance(t, 35)
 	return c
 }
 
